@@ -8,7 +8,13 @@ from manifest_text import TEXT, NOT_APPLICABLE, HOOK_COMMITS
 
 checks = []
 for pid in sorted(PROPS):
-    t = TEXT[pid]
+    t = dict(TEXT[pid])
+    if any(m == pid + "A" for m in PROPS[pid].get("extra_modules", [])):
+        # the regenerated tie: data-flow facts extracted from /repo's Go AST on every run (Generated/FlowFacts.lean)
+        t["note"] += (" Regenerated tie (Props/%sA.lean): the data-flow skeleton of every layer method (calls on the receiver, on base/backup, assignments, in source order) is"
+                      " extracted from /repo's Go AST on every run and the `source_…` theorems are decided on it by the kernel (decide +kernel): a slip in how names flow through"
+                      " a method (an unresolved or unprefixed name handed to the base, a skipped backup or hidden check) breaks the build whether or not a generated input exhibits it." % pid)
+        t["technique"] += "; plus kernel-decided theorems over data-flow facts regenerated from the Go AST on every run"
     checks.append({
         "property_id": pid,
         "quick_cmd": "./check %s --tier quick" % pid,
@@ -33,7 +39,7 @@ m = {
     "engines": [
         {"name": "lean4-proof+correspondence", "path": "/verif/lean + /verif/harness",
          "serves_properties": sorted(PROPS),
-         "kind_free_text": "Lean 4 theorems about a hand-written executable model; model tied to /repo by differential correspondence streams (Go harness calling the real code in-process, line protocol to the compiled Lean driver) and, for C10, facts regenerated from the Go AST on every run"},
+         "kind_free_text": "Lean 4 theorems about a hand-written executable model; model tied to /repo by differential correspondence streams (Go harness calling the real code in-process, line protocol to the compiled Lean driver) and by facts regenerated from the Go AST on every run (C10: lock discipline; C02/C04/C05/C06/C08/C11/C14/C15/C16/C18: data-flow skeleton of the layer methods)"},
     ],
     "checks": checks,
     "not_applicable": [{"property_id": k, "reason": v} for k, v in sorted(NOT_APPLICABLE.items()) if k not in PROPS],
